@@ -33,7 +33,7 @@ def run(chk):
         if run_ is None:
             continue
         stats[profile] = {k: v for k, v in run_["stat"].items() if k != "t"}
-        chk.notes.extend(run_["notes"][:20])
+        chk.notes.extend(n for n in sorted(set(run_["notes"]))[:8] if n not in chk.notes)
         stale = int(run_["stat"].get("damaged.stale_frame_after_error", 0))
         if stale:
             # outside C07's statement (the stream is damaged): recorded, not an alarm
